@@ -2,7 +2,8 @@ from .. import common
 from .. import fam_pipeline as fp
 from .. import oracles as orc
 
-THEOREMS = ["C15.compat_same_class", "C15.compat_params", "C15.shared_write_idempotent"]
+THEOREMS = ["C15.compat_same_class", "C15.compat_params", "C15.shared_write_idempotent",
+            "C15.sharing_pairwise", "C15.sharing_single", "C15.sharing_unread", "C15.single_consumers_agree", "C15.single_consumers_params"]
 
 
 def exported_constants(ctx, case, res, fail):
@@ -27,7 +28,7 @@ def exported_constants(ctx, case, res, fail):
 
 def run(ctx):
     ctx.rule = ("generated models with tied constants (one buffer referenced by several tensors within a subgraph and across subgraphs, one constant tensor with 2..3 consumers, shared constant feeding fc and elementwise ops) x recipes assigning equal, different or no quantization to the sharers (shipped, per-op regex rules, float casting, no_quantize); every buffer of the output is decoded against every tensor referencing it; rejections are allowed; the pipeline is compared with the Lean model; distinct = distinct (model, recipe) pairs")
-    common.proof_side(ctx, THEOREMS)
+    common.proof_side(ctx, THEOREMS, modules=["QProps.C15", "QProps.C15b"])
     drv = common.Driver()
 
     def per_case(case, res):
